@@ -1,3 +1,580 @@
+//! The DrawTarget API machine: executes call histories on the real library and records one
+//! event per public call and per target (the main target plus one "shadow" target per open
+//! layer, which makes the hidden layer buffers observable; see DESIGN.md C06).
+use crate::util::*;
+use raqote::*;
 use serde_json::{json, Value};
-pub fn run(sc: &Value) -> Value { json!({"id": sc["id"], "outcome": "unimplemented"}) }
-pub fn drive(_fam: &str, _seed: u64, _n: usize) -> Vec<Value> { Vec::new() }
+
+pub fn parse_transform(v: &Value) -> Transform {
+    let den = den_of(v, "mden", 1.0);
+    let m = &v["m"];
+    Transform::new(
+        numd(&m[0], den), numd(&m[1], den), numd(&m[2], den),
+        numd(&m[3], den), numd(&m[4], den), numd(&m[5], den),
+    )
+}
+
+pub fn parse_path(v: &Value, den_default: f32) -> Path {
+    let den = den_of(v, "den", den_default);
+    let mut pb = PathBuilder::new();
+    for op in v["ops"].as_array().unwrap() {
+        let k = op[0].as_str().unwrap();
+        let c = |i: usize| numd(&op[i], den);
+        match k {
+            "M" => pb.move_to(c(1), c(2)),
+            "L" => pb.line_to(c(1), c(2)),
+            "Q" => pb.quad_to(c(1), c(2), c(3), c(4)),
+            "C" => pb.cubic_to(c(1), c(2), c(3), c(4), c(5), c(6)),
+            "Z" => pb.close(),
+            "R" => pb.rect(c(1), c(2), c(3), c(4)),
+            "A" => pb.arc(c(1), c(2), c(3), num(&op[4]), num(&op[5])),
+            _ => panic!("bad path op {}", k),
+        }
+    }
+    let mut p = pb.finish();
+    p.winding = if v["winding"].as_str() == Some("EvenOdd") { Winding::EvenOdd } else { Winding::NonZero };
+    p
+}
+
+pub fn parse_opts(v: &Value) -> DrawOptions {
+    if v.is_null() {
+        return DrawOptions::new();
+    }
+    DrawOptions {
+        blend_mode: blend_mode(v["blend"].as_str().unwrap_or("SrcOver")),
+        alpha: if v.get("alpha").is_some() { num(&v["alpha"]) } else { 1.0 },
+        antialias: if v["aa"].as_bool().unwrap_or(true) { AntialiasMode::Gray } else { AntialiasMode::None },
+    }
+}
+
+pub fn parse_style(v: &Value, den_default: f32) -> StrokeStyle {
+    let den = den_of(v, "den", den_default);
+    StrokeStyle {
+        width: numd(&v["width"], den),
+        cap: match v["cap"].as_str().unwrap_or("Butt") {
+            "Round" => LineCap::Round,
+            "Square" => LineCap::Square,
+            _ => LineCap::Butt,
+        },
+        join: match v["join"].as_str().unwrap_or("Miter") {
+            "Round" => LineJoin::Round,
+            "Bevel" => LineJoin::Bevel,
+            _ => LineJoin::Miter,
+        },
+        miter_limit: if v.get("miter").is_some() { num(&v["miter"]) } else { 10.0 },
+        dash_array: v.get("dash").and_then(|d| d.as_array()).map(|a| a.iter().map(|x| numd(x, den)).collect()).unwrap_or_default(),
+        dash_offset: v.get("dash_offset").map(|x| numd(x, den)).unwrap_or(0.0),
+    }
+}
+
+pub fn parse_stops(v: &Value) -> Vec<GradientStop> {
+    v.as_array()
+        .unwrap()
+        .iter()
+        .map(|s| {
+            let c = &s[1];
+            GradientStop {
+                position: num(&s[0]),
+                color: Color::new(int(&c[0]) as u8, int(&c[1]) as u8, int(&c[2]) as u8, int(&c[3]) as u8),
+            }
+        })
+        .collect()
+}
+
+pub fn parse_spread(v: &Value) -> Spread {
+    match v.as_str().unwrap_or("Pad") {
+        "Repeat" => Spread::Repeat,
+        "Reflect" => Spread::Reflect,
+        _ => Spread::Pad,
+    }
+}
+
+/// Build the Source described by `v` and hand it to `f`.
+pub fn with_source<R>(v: &Value, den_default: f32, f: &mut dyn FnMut(&Source) -> R) -> R {
+    let den = den_of(v, "den", den_default);
+    match v["kind"].as_str().unwrap() {
+        "solid" => {
+            let c = &v["c"];
+            let s = Source::Solid(SolidSource { a: int(&c[0]) as u8, r: int(&c[1]) as u8, g: int(&c[2]) as u8, b: int(&c[3]) as u8 });
+            f(&s)
+        }
+        "image" => {
+            let img = &v["img"];
+            let data = unpix(&img["data"]);
+            let image = Image { width: int(&img["w"]), height: int(&img["h"]), data: &data };
+            let ext = if v["extend"].as_str() == Some("Repeat") { ExtendMode::Repeat } else { ExtendMode::Pad };
+            let fil = if v["filter"].as_str() == Some("Bilinear") { FilterMode::Bilinear } else { FilterMode::Nearest };
+            let t = if v.get("m").is_some() { parse_transform(v) } else { Transform::identity() };
+            let s = Source::Image(image, ext, fil, t);
+            f(&s)
+        }
+        "linear" => {
+            let g = Gradient { stops: parse_stops(&v["stops"]) };
+            let s = Source::new_linear_gradient(
+                g,
+                Point::new(numd(&v["start"][0], den), numd(&v["start"][1], den)),
+                Point::new(numd(&v["end"][0], den), numd(&v["end"][1], den)),
+                parse_spread(&v["spread"]),
+            );
+            f(&s)
+        }
+        "radial" => {
+            let g = Gradient { stops: parse_stops(&v["stops"]) };
+            let s = Source::new_radial_gradient(
+                g,
+                Point::new(numd(&v["center"][0], den), numd(&v["center"][1], den)),
+                numd(&v["radius"], den),
+                parse_spread(&v["spread"]),
+            );
+            f(&s)
+        }
+        "two_circle" => {
+            let g = Gradient { stops: parse_stops(&v["stops"]) };
+            let s = Source::new_two_circle_radial_gradient(
+                g,
+                Point::new(numd(&v["c1"][0], den), numd(&v["c1"][1], den)),
+                numd(&v["r1"], den),
+                Point::new(numd(&v["c2"][0], den), numd(&v["c2"][1], den)),
+                numd(&v["r2"], den),
+                parse_spread(&v["spread"]),
+            );
+            f(&s)
+        }
+        "sweep" => {
+            let g = Gradient { stops: parse_stops(&v["stops"]) };
+            let s = Source::new_sweep_gradient(
+                g,
+                Point::new(numd(&v["center"][0], den), numd(&v["center"][1], den)),
+                num(&v["start_angle"]),
+                num(&v["end_angle"]),
+                parse_spread(&v["spread"]),
+            );
+            f(&s)
+        }
+        k => panic!("bad source kind {}", k),
+    }
+}
+
+pub fn irect(v: &Value) -> IntRect {
+    IntRect::new(IntPoint::new(int(&v[0]), int(&v[1])), IntPoint::new(int(&v[2]), int(&v[3])))
+}
+
+/// Execute one API call on `dt`.
+pub fn apply_call(dt: &mut DrawTarget, c: &Value, den: f32) {
+    let op = c["op"].as_str().unwrap();
+    match op {
+        "set_transform" => dt.set_transform(&parse_transform(c)),
+        "push_clip_rect" => dt.push_clip_rect(irect(&c["r"])),
+        "push_clip" => dt.push_clip(&parse_path(&c["path"], den)),
+        "pop_clip" => dt.pop_clip(),
+        "push_layer" => {
+            let o = num(&c["opacity"]);
+            match c.get("blend").and_then(|b| b.as_str()) {
+                Some(b) => dt.push_layer_with_blend(o, blend_mode(b)),
+                None => dt.push_layer(o),
+            }
+        }
+        "pop_layer" => dt.pop_layer(),
+        "fill" => {
+            let mut p = parse_path(&c["path"], den);
+            if let Some(t) = c.get("pretransform") {
+                p = p.transform(&parse_transform(t));
+            }
+            if let Some(tol) = c.get("flatten") {
+                let w = p.winding;
+                p = p.flatten(num(tol));
+                p.winding = w;
+            }
+            let o = parse_opts(&c["opts"]);
+            with_source(&c["src"], den, &mut |s| dt.fill(&p, s, &o));
+        }
+        "fill_rect" => {
+            let r = &c["r"];
+            let o = parse_opts(&c["opts"]);
+            let d = den_of(c, "den", den);
+            with_source(&c["src"], den, &mut |s| dt.fill_rect(numd(&r[0], d), numd(&r[1], d), numd(&r[2], d), numd(&r[3], d), s, &o));
+        }
+        "stroke" => {
+            let p = parse_path(&c["path"], den);
+            let o = parse_opts(&c["opts"]);
+            let st = parse_style(&c["style"], den);
+            with_source(&c["src"], den, &mut |s| dt.stroke(&p, s, &st, &o));
+        }
+        "clear" => {
+            let k = &c["color"];
+            dt.clear(SolidSource { a: int(&k[0]) as u8, r: int(&k[1]) as u8, g: int(&k[2]) as u8, b: int(&k[3]) as u8 });
+        }
+        "mask" => {
+            let m = Mask {
+                width: int(&c["mw"]),
+                height: int(&c["mh"]),
+                data: c["data"].as_array().unwrap().iter().map(|x| int(x) as u8).collect(),
+            };
+            with_source(&c["src"], den, &mut |s| dt.mask(s, int(&c["x"]), int(&c["y"]), &m));
+        }
+        "draw_image_at" => {
+            let img = &c["img"];
+            let data = unpix(&img["data"]);
+            let image = Image { width: int(&img["w"]), height: int(&img["h"]), data: &data };
+            let d = den_of(c, "den", den);
+            dt.draw_image_at(numd(&c["x"], d), numd(&c["y"], d), &image, &parse_opts(&c["opts"]));
+        }
+        "draw_image_with_size_at" => {
+            let img = &c["img"];
+            let data = unpix(&img["data"]);
+            let image = Image { width: int(&img["w"]), height: int(&img["h"]), data: &data };
+            let d = den_of(c, "den", den);
+            dt.draw_image_with_size_at(numd(&c["w"], d), numd(&c["h"], d), numd(&c["x"], d), numd(&c["y"], d), &image, &parse_opts(&c["opts"]));
+        }
+        "copy_surface" | "blend_surface" | "blend_surface_with_alpha" => {
+            let img = &c["img"];
+            let src = DrawTarget::from_vec(int(&img["w"]), int(&img["h"]), unpix(&img["data"]));
+            let r = irect(&c["rect"]);
+            let d = IntPoint::new(int(&c["dst"][0]), int(&c["dst"][1]));
+            match op {
+                "copy_surface" => dt.copy_surface(&src, r, d),
+                "blend_surface" => dt.blend_surface(&src, r, d, blend_mode(c["blend"].as_str().unwrap())),
+                _ => dt.blend_surface_with_alpha(&src, r, d, num(&c["alpha"])),
+            }
+        }
+        _ => panic!("unknown op {}", op),
+    }
+}
+
+pub fn is_draw(op: &str) -> bool {
+    matches!(op, "fill" | "fill_rect" | "stroke" | "clear" | "mask" | "draw_image_at" | "draw_image_with_size_at" | "pop_layer"
+        | "copy_surface" | "blend_surface" | "blend_surface_with_alpha")
+}
+
+fn fbits(x: f32) -> Value {
+    let b = x.to_bits();
+    json!([b >> 16, b & 0xffff])
+}
+
+pub fn ctm_bits(t: &Transform) -> Value {
+    json!([fbits(t.m11), fbits(t.m12), fbits(t.m21), fbits(t.m22), fbits(t.m31), fbits(t.m32)])
+}
+
+/// The colour the call's source produces at every pixel (full coverage, `Src`), rendered on a
+/// scratch target under the same transform.  Used as `s` in the compositing formula for image
+/// and gradient sources (their positioning is C12/C13's subject).
+pub fn shade_probe(w: i32, h: i32, ctm: &Transform, srcv: &Value, alpha: f32, den: f32) -> Option<Value> {
+    let inv = ctm.inverse()?;
+    let mut sc = DrawTarget::new(w, h);
+    sc.set_transform(ctm);
+    let mut pb = PathBuilder::new();
+    let m = 4.0;
+    let c = [
+        inv.transform_point(Point::new(-m, -m)),
+        inv.transform_point(Point::new(w as f32 + m, -m)),
+        inv.transform_point(Point::new(w as f32 + m, h as f32 + m)),
+        inv.transform_point(Point::new(-m, h as f32 + m)),
+    ];
+    pb.move_to(c[0].x, c[0].y);
+    pb.line_to(c[1].x, c[1].y);
+    pb.line_to(c[2].x, c[2].y);
+    pb.line_to(c[3].x, c[3].y);
+    pb.close();
+    let p = pb.finish();
+    let o = DrawOptions { blend_mode: BlendMode::Src, alpha, antialias: AntialiasMode::Gray };
+    let r = std::panic::catch_unwind(std::panic::AssertUnwindSafe(|| {
+        with_source(srcv, den, &mut |s| sc.fill(&p, s, &o));
+    }));
+    if r.is_err() {
+        return None;
+    }
+    Some(pix(sc.get_data()))
+}
+
+const TOKENS: [&str; 10] = ["NaN", "Inf", "-Inf", "Max", "-Max", "MinPos", "-MinPos", "-0", "Eps", "f"];
+
+fn is_lattice(v: &Value) -> bool {
+    match v {
+        Value::Number(n) => n.is_i64() || n.is_u64(),
+        Value::String(s) => !TOKENS.contains(&s.as_str()) && s.parse::<f32>().is_err(),
+        Value::Array(a) => a.iter().all(is_lattice),
+        Value::Object(o) => o.iter().all(|(_, x)| is_lattice(x)),
+        _ => true,
+    }
+}
+
+/// TLC's JSON reader silently truncates non-integer numbers: replace them by the token "f".
+fn sanitize(v: &Value) -> Value {
+    match v {
+        Value::Number(n) if !(n.is_i64() || n.is_u64()) => json!("f"),
+        Value::Array(a) => Value::Array(a.iter().map(sanitize).collect()),
+        Value::Object(o) => Value::Object(o.iter().map(|(k, x)| (k.clone(), sanitize(x))).collect()),
+        Value::Null => json!("null"),
+        _ => v.clone(),
+    }
+}
+
+/// The call as echoed into the trace: `lat` says that every number in it is an integer (so the
+/// specification may compute with them); set_transform also carries the f32 bits of its argument.
+pub fn annot(c: &Value) -> Value {
+    let mut o = sanitize(c);
+    o["lat"] = json!(is_lattice(c));
+    if c["op"].as_str() == Some("set_transform") {
+        o["mb"] = ctm_bits(&parse_transform(c));
+    }
+    o
+}
+
+struct Tgt {
+    dt: DrawTarget,
+    id: usize,
+    init: Vec<u32>,
+    events: Vec<Value>,
+    /// index of the first scenario call this target saw (0 for main)
+    from: usize,
+    /// set-up calls issued on creation (re-established transform and clips)
+    setup: Vec<Value>,
+    dead: bool,
+    last: Vec<u32>,
+}
+
+#[derive(Clone)]
+struct OpenClip {
+    ctm: Transform,
+    ctm_json: Value,
+    call: Value,
+    /// layer depth at which the clip was pushed
+    depth: usize,
+}
+
+fn reestablish(dt: &mut DrawTarget, clips: &[OpenClip], cur: &Transform, den: f32, log: &mut Vec<Value>, cur_json: &Value) {
+    for oc in clips {
+        dt.set_transform(&oc.ctm);
+        log.push(annot(&oc.ctm_json));
+        apply_call(dt, &oc.call, den);
+        log.push(annot(&oc.call));
+    }
+    dt.set_transform(cur);
+    log.push(annot(cur_json));
+}
+
+pub fn run(sc: &Value) -> Value {
+    let w = int(&sc["w"]);
+    let h = int(&sc["h"]);
+    let den = den_of(sc, "den", 1.0);
+    let n = (w * h) as usize;
+    let init: Vec<u32> = init_pixels(sc, n);
+    let want_fresh = sc["fresh"].as_bool().unwrap_or(false);
+    let want_shade = sc["shade"].as_bool().unwrap_or(true);
+    let identity_json = json!({"op": "set_transform", "m": [1, 0, 0, 1, 0, 0], "mden": 1});
+
+    let mut tg: Vec<Tgt> = vec![Tgt { dt: DrawTarget::from_vec(w, h, init.clone()), id: 0, init: init.clone(), events: Vec::new(), from: 0, setup: Vec::new(), dead: false, last: init.clone() }];
+    let mut clips: Vec<OpenClip> = Vec::new();
+    let mut cur = Transform::identity();
+    let mut cur_json = identity_json.clone();
+    let mut depth = 0usize; // layer depth of main
+    let mut next_id = 1usize;
+    // C10: a fresh target replaying the current outermost layer group
+    let mut group_fresh: Option<DrawTarget> = None;
+    let mut outcome = "ok".to_string();
+    let mut finished: Vec<Tgt> = Vec::new();
+
+    let calls = sc["calls"].as_array().unwrap();
+    'outer: for (ci, c) in calls.iter().enumerate() {
+        let op = c["op"].as_str().unwrap();
+        // pops without a matching push are outside every property's domain
+        if (op == "pop_layer" && depth == 0) || (op == "pop_clip" && clips.is_empty()) {
+            continue;
+        }
+        let mut extra = serde_json::Map::new();
+        // observation common to all targets: the source colour per pixel
+        if want_shade && is_draw(op) {
+            if let Some(srcv) = c.get("src") {
+                if srcv["kind"].as_str() != Some("solid") {
+                    let alpha = if c["opts"].get("alpha").is_some() { num(&c["opts"]["alpha"]) } else { 1.0 };
+                    if let Some(p) = shade_probe(w, h, &cur, srcv, alpha, den) {
+                        extra.insert("shade".into(), p);
+                    }
+                }
+            }
+        }
+        // C10: fresh replay of a single drawing call at layer depth 0
+        let mut fresh_pix: Option<Value> = None;
+        if want_fresh && depth == 0 && is_draw(op) && op != "pop_layer" {
+            let mut f = DrawTarget::from_vec(w, h, tg[0].dt.get_data().to_vec());
+            let mut lg = Vec::new();
+            let r = std::panic::catch_unwind(std::panic::AssertUnwindSafe(|| {
+                reestablish(&mut f, &clips, &cur, den, &mut lg, &cur_json);
+                apply_call(&mut f, c, den);
+            }));
+            if r.is_ok() {
+                fresh_pix = Some(pix(f.get_data()));
+            }
+        }
+        if want_fresh && depth == 0 && op == "push_layer" {
+            let mut f = DrawTarget::from_vec(w, h, tg[0].dt.get_data().to_vec());
+            let mut lg = Vec::new();
+            let r = std::panic::catch_unwind(std::panic::AssertUnwindSafe(|| {
+                reestablish(&mut f, &clips, &cur, den, &mut lg, &cur_json);
+            }));
+            group_fresh = if r.is_ok() { Some(f) } else { None };
+        }
+        if let Some(f) = group_fresh.as_mut() {
+            let r = std::panic::catch_unwind(std::panic::AssertUnwindSafe(|| apply_call(f, c, den)));
+            if r.is_err() {
+                group_fresh = None;
+            }
+        }
+
+        // a new layer gets a shadow target: transparent, same transform and clip
+        let mut new_shadow: Option<Tgt> = None;
+        if op == "push_layer" {
+            let mut s = DrawTarget::new(w, h);
+            let mut lg = Vec::new();
+            let r = std::panic::catch_unwind(std::panic::AssertUnwindSafe(|| {
+                reestablish(&mut s, &clips, &cur, den, &mut lg, &cur_json);
+            }));
+            if r.is_ok() {
+                new_shadow = Some(Tgt { dt: s, id: next_id, init: vec![0; n], events: Vec::new(), from: ci + 1, setup: lg, dead: false, last: vec![0; n] });
+                next_id += 1;
+            }
+        }
+        let nt = tg.len();
+        let top_is_shadow_of_this_pop = op == "pop_layer" && nt > 1;
+        let layer_pix: Option<Value> = if top_is_shadow_of_this_pop { Some(pix(tg[nt - 1].dt.get_data())) } else { None };
+        for ti in 0..nt {
+            if op == "pop_layer" && ti == nt - 1 && nt > 1 {
+                continue; // the shadow of the layer being popped does not contain that layer
+            }
+            if tg[ti].dead {
+                continue;
+            }
+            let t = &mut tg[ti];
+            let r = std::panic::catch_unwind(std::panic::AssertUnwindSafe(|| apply_call(&mut t.dt, c, den)));
+            let mut ev = serde_json::Map::new();
+            ev.insert("ci".into(), json!(ci + 1));
+            ev.insert("call".into(), annot(c));
+            match &r {
+                Ok(_) => {
+                    ev.insert("outcome".into(), json!("ok"));
+                }
+                Err(e) => {
+                    ev.insert("outcome".into(), json!("panic"));
+                    ev.insert("msg".into(), json!(crate::panic_msg(e)));
+                    t.dead = true;
+                    if ti == 0 {
+                        outcome = "panic".into();
+                    }
+                }
+            }
+            // unchanged pixels are not repeated (the trace specification then keeps its own)
+            let now = t.dt.get_data().to_vec();
+            if now != t.last {
+                ev.insert("after".into(), pix(&now));
+                t.last = now;
+            }
+            ev.insert("mb".into(), ctm_bits(t.dt.get_transform()));
+            let (cd, ld) = t.dt.verif_stack_depths();
+            ev.insert("depths".into(), json!([cd, ld]));
+            ev.insert("idle".into(), json!(t.dt.verif_rasterizer_idle()));
+            for (k, v) in extra.iter() {
+                ev.insert(k.clone(), v.clone());
+            }
+            if op == "pop_layer" {
+                // the parent of the popped layer is the target just below its shadow
+                if nt > 1 && ti == nt - 2 {
+                    if let Some(lp) = &layer_pix {
+                        ev.insert("layer_pix".into(), lp.clone());
+                    }
+                }
+            }
+            if ti == 0 {
+                if let Some(fp) = &fresh_pix {
+                    ev.insert("fresh".into(), fp.clone());
+                }
+                if op == "pop_layer" && depth == 1 {
+                    if let Some(f) = group_fresh.take() {
+                        ev.insert("fresh".into(), pix(f.get_data()));
+                    }
+                }
+            }
+            t.events.push(Value::Object(ev));
+        }
+        // bookkeeping of the scenario-level state
+        match op {
+            "set_transform" => {
+                cur = parse_transform(c);
+                cur_json = c.clone();
+            }
+            "push_clip_rect" | "push_clip" => clips.push(OpenClip { ctm: cur, ctm_json: cur_json.clone(), call: c.clone(), depth }),
+            "pop_clip" => {
+                clips.pop();
+            }
+            "push_layer" => {
+                depth += 1;
+                if let Some(s) = new_shadow {
+                    tg.push(s);
+                } else {
+                    // could not even set the shadow up: stop recording shadows for this scenario
+                    outcome = "shadow-setup-panic".into();
+                    break 'outer;
+                }
+            }
+            "pop_layer" => {
+                depth -= 1;
+                if tg.len() > 1 {
+                    let s = tg.pop().unwrap();
+                    finished.push(s);
+                }
+            }
+            _ => {}
+        }
+        if tg[0].dead {
+            break 'outer;
+        }
+    }
+    let mut all: Vec<Tgt> = Vec::new();
+    all.extend(tg.into_iter());
+    all.extend(finished.into_iter());
+    all.sort_by_key(|t| t.id);
+    let targets: Vec<Value> = all
+        .into_iter()
+        .map(|t| json!({"tgt": t.id, "from": t.from, "setup": t.setup, "init": pix(&t.init), "events": t.events}))
+        .collect();
+    json!({"id": sc["id"], "fam": "canvas", "w": w, "h": h, "den": sc.get("den").cloned().unwrap_or(json!(1)),
+           "outcome": outcome, "targets": targets})
+}
+
+fn init_pixels(sc: &Value, n: usize) -> Vec<u32> {
+    match sc.get("init") {
+        Some(v) if v.is_array() => unpix(v),
+        Some(v) if v.as_str() == Some("distinct") => crate::surface::dst_pattern(n),
+        _ => vec![0; n],
+    }
+}
+
+/// Two-route scenarios: the call lists `a` and `b` are executed on two fresh targets with the
+/// same initial pixels; the property at stake says the results are identical.
+pub fn run_routes(sc: &Value) -> Value {
+    let w = int(&sc["w"]);
+    let h = int(&sc["h"]);
+    let den = den_of(sc, "den", 1.0);
+    let init = init_pixels(sc, (w * h) as usize);
+    let mut out = serde_json::Map::new();
+    out.insert("id".into(), sc["id"].clone());
+    out.insert("fam".into(), json!("routes"));
+    out.insert("w".into(), json!(w));
+    out.insert("h".into(), json!(h));
+    out.insert("init".into(), pix(&init));
+    for route in ["a", "b"].iter() {
+        let mut dt = DrawTarget::from_vec(w, h, init.clone());
+        let calls = sc[*route].as_array().unwrap();
+        let r = std::panic::catch_unwind(std::panic::AssertUnwindSafe(|| {
+            for c in calls {
+                apply_call(&mut dt, c, den);
+            }
+        }));
+        out.insert(format!("o{}", route), json!(if r.is_ok() { "ok" } else { "panic" }));
+        out.insert(format!("p{}", route), pix(dt.get_data()));
+    }
+    Value::Object(out)
+}
+
+pub fn drive(_fam: &str, _seed: u64, _n: usize) -> Vec<Value> {
+    Vec::new()
+}
